@@ -791,24 +791,6 @@ def disp8(ctx) -> List[Ob]:
             out.append(bad("DISP-8", mk.qualname, key, ctx.where(mk), f"the reader drops field(s) {sorted(missing_r)} of {K.name} (popped or never passed)"))
         else:
             out.append(ok("DISP-8", td.qualname, key, where, f"written {sorted(wkeys)} / read {sorted(rkeys)} = fields {sorted(own)}"))
-        # types: a key written as `<field>.name` (a str) into a field that holds an object needs a fix-up
-        for k, expr in keys.items():
-            if k in own and isinstance(expr, ast.Attribute) and expr.attr == "name" and A.unparse(expr.value).endswith("." + k):
-                tkey = f"{K.name}.{k} written as a name"
-                if k in reader_fix:
-                    out.append(ok("DISP-8", mk.qualname, tkey, ctx.where(mk), f"field '{k}' is written as a name (str) and restored to an object by the reader (object.__setattr__)"))
-                else:
-                    out.append(bad("DISP-8", mk.qualname, tkey, ctx.where(mk), f"field '{k}' of {K.name} is written as a name (str) and read back into the object-typed field without being restored"))
-    # sibling cross-check: pointer bookkeeping of extract_region vs. the reader
-    er = prog.find_function("extract_region")
-    if er is None:
-        raise AnalysisError("extract_region not found")
-    for attr in sorted(fixups(er)):
-        key = f"pointer '{attr}' restored on read"
-        if attr in reader_fix:
-            out.append(ok("DISP-8", mk.qualname, key, ctx.where(mk), f"extract_region sets '{attr}', so does the reader"))
-        else:
-            out.append(bad("DISP-8", mk.qualname, key, ctx.where(mk), f"extract_region maintains the back pointer '{attr}' but the reader never sets it: a graph that was read has stale / string pointers"))
     # (e) text sink quoting
     ty = io["to_yaml"]
     for lp in [n for n in A.walk_no_nested(ty.node) if isinstance(n, ast.For)]:
@@ -825,4 +807,55 @@ def disp8(ctx) -> List[Ob]:
                     out.append(ok("DISP-8", ty.qualname, key, ctx.where(ty, fv), "values are written through repr: names that look like numbers stay strings"))
                 else:
                     out.append(bad("DISP-8", ty.qualname, key, ctx.where(ty, fv), "block attribute values (header / exiting / parent_region names) are interpolated unquoted: the name '0' is read back as the integer 0"))
+    return out
+
+
+@rule("DISP-9", 3, "the reader restores what the writer flattened: object pointers written as names, and the back pointers extract_region maintains")
+def disp9(ctx) -> List[Ob]:
+    prog = ctx.prog
+    out: List[Ob] = []
+    io = _io(ctx)
+    td = io["to_dict"]
+    mk = io["make_scfg"]
+    chains = find_class_chains(td.node)
+    if not chains:
+        raise AnalysisError("no per-class chain found in to_dict")
+    subj, arms = chains[0]
+    is_sub = prog_is_sub(prog)
+
+    def fixups(fn):
+        return {c.args[1].value for c in A.walk_no_nested(fn.node) if isinstance(c, ast.Call) and (A.dotted(c.func) or "") == "object.__setattr__" and len(c.args) == 3 and isinstance(c.args[1], ast.Constant)}
+
+    reader_fix = fixups(mk)
+    for K in block_classes(prog):
+        own = {f.name for f in K.fields() if f.init} - BASE_KEYS
+        keys = {}
+        for arm in arms:
+            if arm.test is None:
+                continue
+            if eval_class_test(arm.test, subj, K.name, is_sub) is True:
+                for s_ in A.walk_no_nested(ast.Module(arm.body, [])):
+                    if isinstance(s_, ast.Assign) and len(s_.targets) == 1 and isinstance(s_.targets[0], ast.Subscript):
+                        t = s_.targets[0]
+                        if isinstance(t.slice, ast.Constant) and isinstance(t.slice.value, str) and isinstance(t.value, ast.Subscript):
+                            keys[t.slice.value] = s_.value
+                break
+        # types: a key written as `<field>.name` (a str) into a field that holds an object needs a fix-up
+        for k, expr in keys.items():
+            if k in own and isinstance(expr, ast.Attribute) and expr.attr == "name" and A.unparse(expr.value).endswith("." + k):
+                tkey = f"{K.name}.{k} written as a name"
+                if k in reader_fix:
+                    out.append(ok("DISP-9", mk.qualname, tkey, ctx.where(mk), f"field '{k}' is written as a name (str) and restored to an object by the reader (object.__setattr__)"))
+                else:
+                    out.append(bad("DISP-9", mk.qualname, tkey, ctx.where(mk), f"field '{k}' of {K.name} is written as a name (str) and read back into the object-typed field without being restored"))
+    # sibling cross-check: pointer bookkeeping of extract_region vs. the reader
+    er = prog.find_function("extract_region")
+    if er is None:
+        raise AnalysisError("extract_region not found")
+    for attr in sorted(fixups(er)):
+        key = f"pointer '{attr}' restored on read"
+        if attr in reader_fix:
+            out.append(ok("DISP-9", mk.qualname, key, ctx.where(mk), f"extract_region sets '{attr}', so does the reader"))
+        else:
+            out.append(bad("DISP-9", mk.qualname, key, ctx.where(mk), f"extract_region maintains the back pointer '{attr}' but the reader never sets it: a graph that was read has stale / string pointers"))
     return out
